@@ -581,9 +581,12 @@ class SecopClient(ProxyClient):
         self._connthread = None
 
     def disconnect(self, shutdown=True):
+        if shutdown:
+            # first: the rx thread decides on this flag whether to reconnect, when it
+            # finds _running reset
+            self._shutdown.set()
         self._running = False
         if shutdown:
-            self._shutdown.set()
             self._set_state(False, 'shutdown')
             connthread = self._connthread  # may be reset by the thread itself in the meantime
             if connthread:
